@@ -22,7 +22,7 @@ ASSUMPTIONS = [
     'values are non-dynamic unique ints/strings (the statement excludes dynamic values)',
     'Python attribute resolution (inspect.getattr_static along the MRO, getattr) is the reference',
 ]
-REQUIRED = {'agreement_checks': 20000, 'class_sets': 500, 'add_parameters': 300, 'watch_probes': 200}
+REQUIRED = {'agreement_checks': 20000, 'class_sets': 500, 'add_parameters': 300, 'watch_probes': 200, 'parameter_object_assignments': 80}
 
 _st = {}
 _tok = [1000]
@@ -208,7 +208,14 @@ def run_case(idx, rng, P, rep):
                 cands = [o for o, _ in insts if type(o) is K]
                 if cands:
                     via = cands[0]
-            via.param.add_parameter(n, pobj)
+            if via is K and rng.random() < 0.35:
+                # the metaclass also supports plain class-attribute assignment of a Parameter object
+                kinds[-1] = 'assign_parameter_object'
+                trace[-1] = ('assign_parameter_object',) + trace[-1][1:]
+                rep.count('parameter_object_assignments')
+                setattr(K, n, pobj)
+            else:
+                via.param.add_parameter(n, pobj)
         elif c < 0.7:
             if len(insts) < 4:
                 kinds.append('new_instance')
